@@ -14,8 +14,8 @@ def main(run):
              [('A', 5, 2, 2), ('B1', 4, 3, 3), ('B2', 4, 2, 2), ('K', 4, 3, 3), ('KO', 4, 3, 3)]
     rng = random.Random(run.seed)
     trees, _ = F.model_phase(run, bounds, ['InvC01'])
-    trees = F.cap(trees, 6000 if quick else 200000, rng, run)
-    items = [{'t': t, 'cfgs': F.rotate_cfgs(i, rng, 2 if quick else 6)} for i, t in enumerate(trees)]
+    trees = F.cap(trees, 6000 if quick else 40000, rng, run)
+    items = [{'t': t, 'cfgs': F.rotate_cfgs(i, rng, 2 if quick else 3)} for i, t in enumerate(trees)]
     for t in trees:
         if F.nontrivial_tree(t):
             run.nontrivial.add(F.tree_key(t))
@@ -29,8 +29,8 @@ def main(run):
     run.extra['history_built_containers'] = len(hitems)
     run.evaluations += F.drive_and_judge(run, 'hist', hitems, ['roundtrip'])
     # code -> spec: random trees far beyond the TLC bound
-    rt = F.random_trees(run.seed, 2000 if quick else 30000)
-    items = [{'t': t, 'cfgs': F.rotate_cfgs(i, rng, 2 if quick else 4)} for i, t in enumerate(rt)]
+    rt = F.random_trees(run.seed, 2000 if quick else 12000)
+    items = [{'t': t, 'cfgs': F.rotate_cfgs(i, rng, 2 if quick else 3)} for i, t in enumerate(rt)]
     for t in rt:
         run.nontrivial.add(F.tree_key(t))
     run.evaluations += F.drive_and_judge(run, 'c2s', items, ['roundtrip'])
